@@ -1186,6 +1186,30 @@ impl InterpDriver {
                         if itps[i].done || itps[i].errored {
                             ctx.nontrivial = true;
                         }
+                        // "stepping equals run" from the state an ended interpreter is in: a twin is single-stepped to its end first,
+                        // then the live one is run; whatever an implementation does after the end, the two must agree with each other
+                        let mut twin_end: Option<(Outcome, Snap)> = None;
+                        if itps[i].done || itps[i].errored {
+                            ctx.crumb("step twin after end");
+                            if let Ok(mut twin) = guard(|| itps[i].itp.clone()) {
+                                let mut n = 0usize;
+                                let oc = loop {
+                                    n += 1;
+                                    if n > 4 * total_bits + 32 {
+                                        break None;
+                                    }
+                                    match guard(|| twin.next()) {
+                                        Ok(None) => break Some(Outcome::Finished),
+                                        Ok(Some(Ok(_))) => {}
+                                        Ok(Some(Err(e))) => break Some(Outcome::Err(e.to_string())),
+                                        Err(_) => break None,
+                                    }
+                                };
+                                if let Some(oc) = oc {
+                                    twin_end = Some((oc, snap(&twin)));
+                                }
+                            }
+                        }
                         ctx.crumb("run");
                         let it = &mut itps[i];
                         let res = match guard(|| it.itp.run()) {
@@ -1212,6 +1236,13 @@ impl InterpDriver {
                             if snap(&it.itp) != *rt.states.last().unwrap() {
                                 ctx.violate("atomicity", format!("stacks-changed-after-end#run {}", hname), format!("run() on an interpreter that had already ended ({}) changed the stacks (stdout {})", if it.errored { "with an error" } else { "normally" }, hname));
                                 bail!();
+                            }
+                            if let Some((toc, tsnap)) = &twin_end {
+                                ctx.probe("run_vs_step_compared_after_end");
+                                if *toc != got || *tsnap != snap(&it.itp) {
+                                    ctx.violate("mismatch", format!("run-vs-step-differ-after-end {}", if it.errored { "error" } else { "none" }), format!("from the state the interpreter is in after it ended ({}), single-stepping a clone ends with {:?} but run() returns {:?} (stdout {})", if it.errored { "with an error" } else { "normally" }, toc, got, hname));
+                                    bail!();
+                                }
                             }
                             continue;
                         }
